@@ -109,7 +109,16 @@ def call(ex, node, name, st):
     if name == "len":
         a0 = node.args[0]
         if isinstance(a0, ast.Call) and ex.dotted(a0.func) == "range":
-            r = [S.as_int(ex.need_int(ex.eval(x, st), st, node)) for x in a0.args]
+            rargs = []
+            for x in a0.args:
+                if isinstance(x, ast.Starred):
+                    tv = ex.eval(x.value, st)
+                    if not isinstance(tv, TupV):
+                        raise E.Unsupported("range(*symbolic)")
+                    rargs.extend(tv.items)
+                else:
+                    rargs.append(ex.eval(x, st))
+            r = [S.as_int(ex.need_int(x, st, node)) for x in rargs]
             if len(r) == 1:
                 r = [z3.IntVal(0), r[0], z3.IntVal(1)]
             elif len(r) == 2:
@@ -462,6 +471,8 @@ def method(ex, base, attr, args, st, node):
             return base
     if isinstance(base, TupV) and attr == "copy":
         return TupV(list(base.items), base.kind)
+    if isinstance(base, ObjV) and attr == "operand" and len(args) == 1 and isinstance(args[0], StrV) and args[0].s is not None:
+        return ex.obj_field(base, args[0].s, node)
     if isinstance(base, ObjV):
         ms = getattr(ex.c.cls, "methods", None) or {}
         m = ms.get(f"{base.cls}.{attr}") or ms.get(attr)
